@@ -138,6 +138,8 @@ def ctx_json(c):
 def to_line(c):
     call = c['call']
     ctx = ctx_json(c)
+    if call[0] == 'envdoc':
+        return None
     if call[0] == 'doc':
         # whole-document parse under a pylatexenc-3 spelling: the existing PARSE operation with the macro added
         sp = call[1]
@@ -367,6 +369,8 @@ def run_impl0(c):
     cc = dict(c, ctx=ctx_json(c))
     if k == 'doc':
         return run_doc(cc)
+    if k == 'envdoc':
+        return run_envdoc(cc)
     w = parsecase.make_walker(cc)
     for pr in c.get('pre') or []:
         # earlier legacy calls on the SAME walker (other parsing states, other stop conditions): a walker carries no state
@@ -610,6 +614,48 @@ def run_doc(c):
                 'detail': 'document %r, arguments %r via spelling %s: %s; with MacroSpec(name, %r): %s' % (c['s'], a, code, ls[:300], a, rs[:300])}
     return {'out': ls if code not in ('L', 'Q') else None, 'fail': fail, 'sig': 'doc:%s:%s' % (code, lk)}
 
+def run_envdoc(c):
+    """whole document under an environment `qe` whose arguments are given through a legacy spelling, with or without
+    is_math_mode=True, against EnvironmentSpec('qe', argspec, is_math_mode=...) (same trees incl. the math/text mode of
+    every body node)"""
+    from pylatexenc import latexwalker, macrospec
+    from pylatexenc.macrospec import EnvironmentSpec, std_environment, MacroStandardArgsParser
+    from pylatexenc.latexnodes import parsers
+    code, a, imm = c['call'][1]
+    def mk():
+        if code == 'S': return std_environment('qe', a, is_math_mode=imm)
+        if code == 'P': return EnvironmentSpec('qe', args_parser=a, is_math_mode=imm)
+        if code == 'L': return EnvironmentSpec('qe', args_parser=MacroStandardArgsParser(a), is_math_mode=imm)
+        if code == 'Q': return EnvironmentSpec('qe', MacroStandardArgsParser(a), is_math_mode=imm)
+        raise ValueError(code)
+    def parse_with(spec):
+        db = ctxdesc.make_db(c['ctx'])
+        db.add_context_category('q', prepend=True, macros=[], environments=[spec], specials=[])
+        w = latexwalker.LatexWalker(c['s'], latex_context=db, tolerant_parsing=c['tol'])
+        try:
+            nl, _ = w.parse_content(parsers.LatexGeneralNodesParser())
+            return 'ok', nl
+        except latexwalker.LatexWalkerParseError as e:
+            return 'err', e
+        except RecursionError:
+            raise
+        except Exception as e:
+            return 'crash', e
+    sk, sv = attempt(mk)
+    rk, rv = parse_with(EnvironmentSpec('qe', a, is_math_mode=imm))
+    rs = parsecase.show_result(rk, rv)
+    if sk == 'exc':
+        ls, lk = show_exc(sv), 'crash'
+    else:
+        lk, lv = parse_with(sv)
+        ls = parsecase.show_result(lk, lv)
+    fail = None
+    if (lk == 'err') != (rk == 'err') or (lk != 'err' and norm_bare(ls) != norm_bare(rs)):
+        fail = {'kind': 'legacy-differs:envdoc:' + code,
+                'detail': 'document %r, environment arguments %r via spelling %s, is_math_mode=%r: %s; with EnvironmentSpec(name, %r, is_math_mode=%r): %s'
+                          % (c['s'], a, code, imm, ls[:300], a, imm, rs[:300])}
+    return {'out': None, 'fail': fail, 'sig': 'envdoc:%s:%s:%s' % (code, 'mm' if imm else 'tm', lk)}
+
 # ---------------------------------------------------------------- generators
 
 def positions(s):
@@ -718,6 +764,16 @@ def cases(tier, rng):
                         yield {'tol': tol, 'ctx': 'A', 's': s, 'pos': pos, 'call': ['args'] + sp}
                         if not wrap or sp[0] in ('L', 'P'):
                             yield {'tol': tol, 'ctx': 'A', 's': s, 'pos': 0, 'call': ['doc', sp]}
+    # 5b. environments whose arguments are given through the legacy spellings, text-mode and math-mode bodies
+    for a in ['', '{', '[', '[{', '{{', '*{']:
+        full = ''.join({'{': '{a}', '[': '[b]', '*': '*'}[ch] for ch in a)
+        for body in ['x', ' x $y$ \\x{z} ', 'a\\(b\\)', '{g}$$h$$', '\\begin{e}i\\end{e}']:
+            for argsrc in (full, full.replace('[b]', ''), ''):
+                s = '\\begin{qe}' + argsrc + body + '\\end{qe}t'
+                for imm in (False, True):
+                    for code in ('S', 'P', 'L', 'Q'):
+                        for tol in (False, True):
+                            yield {'tol': tol, 'ctx': 'A', 's': s, 'pos': 0, 'call': ['envdoc', [code, a, imm]]}
     # 6. optional_arg_no_space / args_math_mode
     for a in argstrings(2):
         if not a:
